@@ -208,7 +208,7 @@ def scenarios(tier, seed):
         for rf in (False, True):
             S.append(Scenario("rebin/%s/read-first-%s" % (method, rf), sc_rebin, params=dict(method=method, read_first=rf)))
     for case in ("narrow-normal", "wide-bin-normal", "laplace-kink", "cubic"):
-        S.append(Scenario("numerical/%s" % case, sc_numerical, family="numerical", params=dict(case=case)))
+        S.append(Scenario("numerical/%s" % case, sc_numerical, family="numerical", params=dict(case=case), concrete_only=True))
     for density in (True, False):
         for method in ("simpson", "antiderivative", "trapezoid"):
             for filled in (False, True):
